@@ -206,8 +206,8 @@ def preChecks (E : Env) (r : Relay) (sbhArg : Int) : Option Fail :=
   else none
 
 /-- `GetTotalProofs` (→ `GetEvidence`, which `log.Fatalf`s when nothing is stored and the allowance
-is zero, and seals an evidence that has reached the allowance), `IsSealed`, `IsUniqueProof`,
-over-service. -/
+is zero — unreachable from `validateApp` since fix 94ea242 — and seals an evidence that has reached
+the allowance), `IsSealed`, `IsUniqueProof`, over-service. -/
 def evidenceChecks (E : Env) (max : Int) : Option Fail :=
   if !E.evidence.found ∧ max = 0 then some .fatal
   else if E.evidence.sealed_ || (E.evidence.found && max ≠ 0 && E.evidence.n ≥ max) then some (pc 90)
@@ -216,9 +216,9 @@ def evidenceChecks (E : Env) (max : Int) : Option Fail :=
   else none
 
 /-- Session from the cache or `NewSession` (with session rollover the end-of-session context is
-fetched first: its failure path dereferences a nil error), then `Session.Validate`. -/
+fetched first; its failure is an internal error since fix b757cb3), then `Session.Validate`. -/
 def sessionStage (E : Env) (p : Proof) (app : App) (count sbhArg : Int) : Option Fail :=
-  if E.height > sbhArg + E.bps - 1 ∧ !E.sessionEndCtxOk then some .panic
+  if E.height > sbhArg + E.bps - 1 ∧ !E.sessionEndCtxOk then some (.err "sdk" 1)
   else match E.session with
   | .error (sp, c) => some (.err sp c)
   | .ok nodes => sessionValidate E p app nodes count
@@ -229,6 +229,9 @@ def validateApp (E : Env) (r : Relay) (sbhArg : Int) (app : App) : Res :=
   else match maxPossibleRelays app (E.nodeCount sbhArg) with
   | none => .fail .panic
   | some max =>
+    -- (fix 94ea242) an allowance of zero relays is refused before the evidence is consulted
+    if max ≤ 0 then .fail (pc 71)
+    else
     match evidenceChecks E max with
     | some e => .fail e
     | none =>
@@ -255,6 +258,8 @@ def latestSessionHeight (height bps : Int) : Int :=
 /-- `IsProofSessionHeightWithinTolerance`. -/
 def withinTolerance (E : Env) (sbh : Int) : Bool :=
   if sbh ≤ 0 then false
+  -- (fix e007075) a session starts at the first block of a session period
+  else if (sbh - 1) % E.bps ≠ 0 then false
   else
     let latest := latestSessionHeight E.height E.bps
     decide (latest - E.sessionAllowance * E.bps ≤ sbh ∧ sbh ≤ latest)
